@@ -39,6 +39,7 @@ type Frame struct {
 	defers    []deferred
 	backedges int
 	results   Val
+	cur       ssa.Instruction
 }
 
 type nondet struct {
@@ -248,6 +249,16 @@ func (in *Interp) call(f FuncV, args []Val, site ssa.Instruction) Val {
 		args = append([]Val{f.Recv}, args...)
 	}
 	name := fn.String()
+	if fn.Name() == "init" && fn.Pkg != nil && fn.Signature.Recv() == nil && len(args) == 0 {
+		// package initialisers run only for the packages the harness asked for
+		if !in.cfg.initPkg(fn.Pkg.Pkg.Path()) {
+			return nil
+		}
+		if in.initDone[fn.Pkg] && !in.inInit {
+			return nil
+		}
+		in.initDone[fn.Pkg] = true
+	}
 	if strings.HasPrefix(fn.Name(), "verif") {
 		if r, ok := in.intrinsic(fn, args); ok {
 			return r
@@ -305,6 +316,12 @@ func (in *Interp) runFrame(fr *Frame) (ret Val) {
 		r := recover()
 		if r == nil {
 			return
+		}
+		if ab, ok := r.(*abortT); ok && (ab.kind == "internal" || ab.kind == "unmodelled") && !strings.Contains(ab.msg, " @ ") {
+			ab.msg += " @ " + fr.fn.String()
+			if fr.cur != nil {
+				ab.msg += ": " + fr.cur.String()
+			}
 		}
 		pp, ok := r.(*ProgPanic)
 		if !ok {
@@ -380,6 +397,7 @@ func (in *Interp) execBlocks(fr *Frame, block *ssa.BasicBlock) Val {
 		var next *ssa.BasicBlock
 		for _, instr := range block.Instrs[len(phis):] {
 			in.steps++
+			fr.cur = instr
 			if in.steps > in.cfg.MaxSteps {
 				panic(abort("unwind", "step budget exceeded"))
 			}
